@@ -6,8 +6,10 @@ package verifrt
 import (
 	"fmt"
 	"os"
+	"runtime"
 	"runtime/debug"
 	"sync"
+	"sync/atomic"
 	"syscall"
 	"time"
 )
@@ -123,7 +125,9 @@ func realIsRunning(pid int) bool {
 // GoGuard is deferred first in every goroutine git-bug spawns: a panic there is
 // recorded as an observed process crash instead of killing the simulator.
 func GoGuard(site string) func() {
+	live.Add(1)
 	return func() {
+		defer live.Add(-1)
 		if r := recover(); r != nil {
 			rec := PanicRecord{Site: site, Value: fmt.Sprint(r), Stack: string(debug.Stack())}
 			mu.Lock()
@@ -132,6 +136,29 @@ func GoGuard(site string) func() {
 		}
 	}
 }
+
+// live counts the goroutines git-bug has spawned that have not returned yet.
+var live atomic.Int64
+
+// TakePanicsQuiesced is TakePanics once every goroutine git-bug spawned has returned: a
+// goroutine that panics closes its result channel (a deferred call) before its panic is
+// recorded, so the reader of that channel would otherwise race with the record. Gives up
+// after a real-time bound (goroutines that legitimately live on) and says so.
+func TakePanicsQuiesced() []PanicRecord {
+	deadline := time.Now().Add(3 * time.Second)
+	for live.Load() > 0 {
+		if time.Now().After(deadline) {
+			QuiesceTimeouts.Add(1)
+			break
+		}
+		runtime.Gosched()
+		time.Sleep(20 * time.Microsecond)
+	}
+	return TakePanics()
+}
+
+// QuiesceTimeouts counts the waits of TakePanicsQuiesced that gave up.
+var QuiesceTimeouts atomic.Int64
 
 // RecordPanic lets engines record a panic recovered on the calling goroutine.
 func RecordPanic(site string, r interface{}) {
